@@ -48,7 +48,8 @@ class SimNcp:
         self.dec = ashref.RefDecoder()  # reused only for its framing (acc / discard)
         self.rx_expected = 0            # next frame number expected from the host
         self.tx_next = 0                # next frame number to send
-        self.unacked = None             # (frm, payload) awaiting the host's ACK
+        self.window = 1                 # transmit window (1..3)
+        self.unacked = []               # [(frm, payload)] awaiting the host's ACK, oldest first
         self.queue = []                 # EZSP frames waiting to be sent
         self.out = []                   # wire bytes to deliver to the host (list of frames)
         self.fmt = 4                    # EZSP frame format in use: 4 legacy, 5 extended legacy, 8 new
@@ -98,16 +99,19 @@ class SimNcp:
             return
         if k in ("ACK", "NAK", "DATA"):
             ack = fr[3]
-            if self.unacked is not None and ack == (self.unacked[0] + 1) % 8:
-                self.unacked = None
-            elif k == "NAK" and self.unacked is not None:
-                self.out.append(ashref.wire(("DATA", self.unacked[0], 1, self.rx_expected, self.unacked[1])))
+            # cumulative acknowledgement: ackNum names the next frame the host expects
+            nums = [u[0] for u in self.unacked]
+            if ack in [(n + 1) % 8 for n in nums]:
+                upto = [(n + 1) % 8 for n in nums].index(ack)
+                self.unacked = self.unacked[upto + 1:]
+            if k == "NAK":
+                self.retransmit()
         if k == "DATA":
             _, frm, re, ack, payload = fr
             if frm == self.rx_expected:
                 self.rx_expected = (self.rx_expected + 1) % 8
                 self.ezsp(bytes(payload))
-                if not self.queue and self.unacked is None:
+                if not (self.queue and len(self.unacked) < self.window):
                     self.out.append(ashref.wire(("ACK", 0, 0, self.rx_expected)))
             elif re:
                 self.out.append(ashref.wire(("ACK", 0, 0, self.rx_expected)))
@@ -116,15 +120,15 @@ class SimNcp:
         self.pump()
 
     def pump(self):
-        if self.unacked is None and self.queue and not self.failed:
+        while len(self.unacked) < self.window and self.queue and not self.failed:
             payload = self.queue.pop(0)
-            self.unacked = (self.tx_next, payload)
+            self.unacked.append((self.tx_next, payload))
             self.out.append(ashref.wire(("DATA", self.tx_next, 0, self.rx_expected, payload)))
             self.tx_next = (self.tx_next + 1) % 8
 
     def reset(self, code):
         self.rx_expected = self.tx_next = 0
-        self.unacked = None
+        self.unacked = []
         self.queue = []
         self.failed = False
         self.fmt = 4
@@ -140,8 +144,9 @@ class SimNcp:
             self.reset(code)
 
     def retransmit(self):
-        if self.unacked is not None and not self.failed:
-            self.out.append(ashref.wire(("DATA", self.unacked[0], 1, self.rx_expected, self.unacked[1])))
+        if not self.failed:
+            for frm, payload in self.unacked:
+                self.out.append(ashref.wire(("DATA", frm, 1, self.rx_expected, payload)))
 
     # ---- EZSP ---------------------------------------------------------------------------------------
     def ezsp(self, data: bytes):
